@@ -80,6 +80,23 @@ CHECKS = {
             'histories judged by completability',
             'Every multiset (size<=3/4) with exactly one valid arrangement is fed in every permutation; every '
             'rejection in add-only histories is checked against the completability oracle.', '3 C12'),
+    'C09': ('library-independent generation of schema-valid documents (oracle derivation -> xml.etree, three encodings) '
+            '+ structure-aware mutation; typed infoset comparison and no-silent-loss containment',
+            'Valid files produced without the library must parse and re-serialise to the same typed infoset; mutated '
+            'files must either be rejected or keep every element / attribute / text fact of the input.', '3 C09'),
+    'C17': ('fault enumeration: every node made to fail + exception injected at every k-th serialiser step x prior '
+            'file states; subprocess configurations for default encodings (ASCII, UTF-8, emulated Latin-1/cp1252)',
+            'Every fault point of generated scores is enumerated against three prior destination states (bytes must be '
+            'unchanged); success path compared byte-for-byte with to_string(); whole import/build/write/parse '
+            'pipeline compared across four default text encodings in fresh interpreters.', '3 C17'),
+    'C19': ('exception-type and output oracle over bounded-exhaustive and Hypothesis misuse histories on every class; '
+            'failures bucketed by raise site',
+            'Every escaping exception is classified against the documented families (with oracle-judged invalidity of '
+            'the offered value / name); captured stdout/stderr must be empty; 60 s watchdog.', '3 C19'),
+    'C20': ('harness-owned schedules: every single-pre-emption line-level interleaving of two threads via sys.settrace, '
+            'each in a forked pristine process; pairs generated from the oracle type graph',
+            'For generated workload pairs every pre-emption point of thread A (thousands per pair) is executed with '
+            'thread B run to completion in the gap; both results must equal the solo results.', '3 C20'),
 }
 
 ALL = ['C%02d' % i for i in range(1, 21)]
@@ -98,7 +115,7 @@ def main():
             'evidence_file': 'evidence/%s.json' % pid,
             'replay_cmd_template': './check %s --replay {path}' % pid,
             'engine': 'mxv',
-            'level_claimed': {'category': 'exploration', 'text': text, 'design_ref': 'DESIGN.md section ' + ref},
+            'level_claimed': {'category': 'fault_enumeration' if pid == 'C17' else 'exploration', 'text': text, 'design_ref': 'DESIGN.md section ' + ref},
             'level_note': NOTE,
             'technique': tech,
         })
